@@ -243,3 +243,29 @@ Theorem C03_successful_test_task : forall env p suite t hk fxs,
     (match h_teardown_test hk with Some _ => [OTeardownTest p] | None => [] end).
 Proof. exact successful_test_task. Qed.
 Print Assumptions C03_successful_test_task.
+
+(* session scope: the session-scoped fixtures scheduled for a run are exactly those some suite of the run needs (recursively over
+   nested suites, disabled tests not counting), each once, dependencies first; what a run needs is used by some suite or test of
+   the forest; and a successful session setup task has entered exactly the setups of that schedule, in schedule order *)
+Theorem C03_session_fixtures_exactly_the_needed_ones : forall reg suites force, registry_ok reg ->
+  (forall f, needed_in_run suites force f -> reg_mem reg f = true) ->
+  exists fxs, get_fixtures_scheduled_for_session reg suites force = Ok fxs /\
+    NoDup (map fx_name fxs) /\
+    (forall y, In y (map fx_name fxs) <->
+       (exists f, needed_in_run suites force f /\ clos_refl_trans name (Edge (reg_find reg)) f y) /\ scope_of reg y ScSession) /\
+    (forall d1 fx t1, fxs = d1 ++ fx :: t1 ->
+       forall y, In y (fparams fx) -> scope_of reg y ScSession -> In y (map fx_name d1)).
+Proof. exact session_schedule_is_what_is_needed. Qed.
+Print Assumptions C03_session_fixtures_exactly_the_needed_ones.
+Theorem C03_needed_in_run_is_used_somewhere : forall suites force f, needed_in_run suites force f ->
+  exists top s', In top suites /\ In s' (flatten_suite top) /\
+    (In f (suite_fixtures s') \/ exists t, In t (su_tests s') /\ In f (test_fixtures t)).
+Proof. exact needed_in_run_is_used_somewhere. Qed.
+Print Assumptions C03_needed_in_run_is_used_somewhere.
+Theorem C03_session_setup_task_evaluates_the_schedule : forall reg force suites fxs env l st en isst d,
+  get_fixtures_scheduled_for_session reg suites force = Ok fxs ->
+  to_res (setup_phase env l st en isst d (session_pairs reg force suites)) = TkSuccess ->
+  begins (to_main (setup_phase env l st en isst d (session_pairs reg force suites))) =
+    map (fun fx => OFxSetup (fx_name fx)) fxs.
+Proof. exact session_setup_task_enters_the_schedule. Qed.
+Print Assumptions C03_session_setup_task_evaluates_the_schedule.
